@@ -92,7 +92,7 @@ Holds(x) == CASE x = "C20_ProgressExact" -> C20_ProgressExact [] x = "C20_DelayE
 TStep == /\ TNext
          /\ LET nb == {x \in Clauses : ~(Holds(x))'} IN
               /\ bad' = bad \cup {<<l, x>> : x \in nb}
-              /\ (nb = {} \/ Cardinality(bad) > 40 \/ PrintT(<<"VERIF_BAD", l, nb>>))
+              /\ (nb = {} \/ Cardinality(bad) > 2000 \/ PrintT(<<"VERIF_BAD", l, nb>>))
          /\ (mon'.win <= mon.win \/ PrintT(<<"VERIF_WINDOW", l>>))       \* a settle window was judged here
 TSpec == TInit /\ [][TStep]_tvars
 =============================================================================
